@@ -104,10 +104,9 @@ pub fn parse_other(src: &mut &[u8]) -> Result<(String, Map<Other>), ParseError> 
 
 pub fn parse_meta(
     src: &mut &[u8],
-    file_format: FileFormat,
+    _file_format: FileFormat,
 ) -> Result<(String, Map<Other>), ParseError> {
     const VALUES: &str = "Values";
-    const VCF_4_3: FileFormat = FileFormat::new(4, 3);
 
     super::consume_prefix(src).map_err(|e| ParseError::new(None, ParseErrorKind::InvalidMap(e)))?;
 
@@ -122,7 +121,9 @@ pub fn parse_meta(
         match tag {
             tag::ID => parse_id(src, &id).and_then(|v| try_replace(&mut id, &None, tag::ID, v))?,
             Tag::Other(t) => {
-                if file_format >= VCF_4_3 && t == VALUES {
+                // The writer emits `Values=[...]` raw for every file format, and the list
+                // syntax is also in VCF < 4.3.
+                if t == VALUES {
                     parse_values(src, &id, &t)
                         .and_then(|value| try_insert(&mut other_fields, &id, t, value))?;
                 } else {
@@ -319,13 +320,15 @@ mod tests {
         );
 
         let mut src = &b"<ID=Assay,Values=[WholeGenome, Exome]>"[..];
-        assert!(matches!(
+        assert_eq!(
             parse_meta(&mut src, VCF_4_2),
-            Err(ParseError {
-                id,
-                kind: ParseErrorKind::InvalidKey(_)
-            }) if id == Some(String::from("Assay"))
-        ));
+            Ok((
+                String::from("Assay"),
+                Map::<Other>::builder()
+                    .insert("Values".parse()?, "[WholeGenome, Exome]")
+                    .build()?
+            ))
+        );
 
         Ok(())
     }
